@@ -683,23 +683,22 @@ theorem absPts_of_mem {a : Abs} (hu : AbsUniq a) {e : Entry} (he : e ∈ a) : ab
         exact ih (List.nodup_cons.1 hu).2 he'
   rw [this]
 
+theorem strictAsc_head_lt (l : List Bytes) : ∀ a, StrictAsc (a :: l) → ∀ y ∈ l, cmpBytes a y = .lt := by
+  induction l with
+  | nil => intro _ _ y hy; cases hy
+  | cons b rest ih =>
+    intro a hs y hy
+    rcases List.mem_cons.1 hy with rfl | hy
+    · exact hs.1
+    · exact cmpBytes_trans hs.1 (ih b hs.2 y hy)
+
 theorem strictAsc_nodup (l : List Bytes) (h : StrictAsc l) : l.Nodup := by
   induction l with
   | nil => exact List.nodup_nil
   | cons a rest ih =>
     refine List.nodup_cons.2 ⟨?_, ih (strictAsc_tail h)⟩
     intro hmem
-    -- every later element is greater than a
-    have hgt : ∀ l : List Bytes, StrictAsc (a :: l) → ∀ y ∈ l, cmpBytes a y = .lt := by
-      intro l
-      induction l generalizing a with
-      | nil => intro _ y hy; cases hy
-      | cons b rest' ih2 =>
-        intro hs y hy
-        rcases List.mem_cons.1 hy with rfl | hy
-        · exact hs.1
-        · exact cmpBytes_trans hs.1 (ih2 hs.2 y hy)
-    have := hgt rest h a hmem
+    have := strictAsc_head_lt rest a h a hmem
     rw [cmpBytes_refl] at this
     cases this
 
@@ -750,12 +749,13 @@ theorem judge_read (st : State) (a : Abs) (h : Rel st a) (sh : Nat) (l : List Se
       | none => simp [hfs] at hpm
       | some s =>
         rw [hfs] at hpm
+        have hpm : p ∈ s.pts := hpm
         obtain ⟨hs, hn, ht⟩ := findSeries_mem hfs
         simp only [List.contains_eq_mem, decide_eq_true_eq, hkeys, List.mem_map, List.mem_filter]
         refine ⟨s, ⟨mem_sortByKey.2 hs, ?_⟩, ?_⟩
         · cases hsp : s.pts with
           | nil => rw [hsp] at hpm; cases hpm
-          | cons _ _ => rfl
+          | cons _ _ => simp
         · simp only [keyOf] at hn ht; rw [hn, ht]; rfl
     simp only [judgeObs]
     have b1 : decide ((seriesOut (sortByKey sh0.series)).map (·.1)).Nodup = true := decide_eq_true c1
@@ -764,5 +764,271 @@ theorem judge_read (st : State) (a : Abs) (h : Rel st a) (sh : Nat) (l : List Se
     have b3 : (liveKeys a sh).all (fun k => ((seriesOut (sortByKey sh0.series)).map (·.1)).contains k) = true :=
       List.all_eq_true.2 c3
     rw [b1, b2, b3]; rfl
+
+theorem judge_ls (st : State) (a : Abs) (h : Rel st a) (sh : Nat) (l : List Series)
+    (hr : readShard st sh = some l) : judgeObs a (.ls sh) (.ids (l.map fun x => (x.name, x.tags))) = .ok := by
+  unfold readShard at hr
+  cases hf : st.find? (·.id = sh) with
+  | none => simp [hf] at hr
+  | some sh0 =>
+    simp only [hf, Option.map_some, Option.some.injEq] at hr
+    subst hr
+    have hsh0 : sh0 ∈ st := List.mem_of_find?_eq_some hf
+    have hid : sh0.id = sh := by have := List.find?_some hf; simpa using this
+    obtain ⟨hwf, hc, _⟩ := h.shards sh0 hsh0
+    have c1 : ((sortByKey sh0.series).map fun x => (x.name, x.tags)).Nodup := nodup_keys_sortByKey _ hwf.uniq
+    have c2 : ∀ k ∈ (sortByKey sh0.series).map (fun x => (x.name, x.tags)), (!(absPts a sh k).isEmpty) = true := by
+      intro k hk
+      obtain ⟨s, hs, rfl⟩ := List.mem_map.1 hk
+      have hs' : s ∈ sh0.series := mem_sortByKey.1 hs
+      obtain ⟨hswf, hsl⟩ := hwf.wf s hs'
+      have hne : s.pts ≠ [] := (listed_iff_pts_cacheOnly s hswf (hc s hs')).1 hsl
+      have hR := h.pts sh0 hsh0 (s.name, s.tags)
+      simp only at hR
+      rw [readPts_of_mem hwf hs', hid] at hR
+      obtain ⟨p, hp⟩ := List.exists_mem_of_ne_nil _ hne
+      have := (hR p).1 hp
+      cases hab : absPts a sh (s.name, s.tags) with
+      | nil => rw [hab] at this; cases this
+      | cons _ _ => simp
+    have c3 : ∀ k ∈ liveKeys a sh, ((sortByKey sh0.series).map fun x => (x.name, x.tags)).contains k = true := by
+      intro k hk
+      simp only [liveKeys, List.mem_map, List.mem_filter, decide_eq_true_eq,
+        Bool.not_eq_true', List.isEmpty_eq_false_iff, Bool.and_eq_true] at hk
+      obtain ⟨e, ⟨he, hesh, hne⟩, rfl⟩ := hk
+      have hap := absPts_of_mem h.uniq he
+      have hR := h.pts sh0 hsh0 (keyOf e)
+      rw [hid, ← hesh, hap] at hR
+      obtain ⟨p, hp⟩ := List.exists_mem_of_ne_nil _ hne
+      have hpm := (hR p).2 hp
+      unfold readPts at hpm
+      cases hfs : findSeries sh0 (keyOf e).1 (keyOf e).2 with
+      | none => simp [hfs] at hpm
+      | some s =>
+        obtain ⟨hs, hn, ht⟩ := findSeries_mem hfs
+        simp only [List.contains_eq_mem, decide_eq_true_eq, List.mem_map]
+        refine ⟨s, mem_sortByKey.2 hs, ?_⟩
+        simp only [keyOf] at hn ht; rw [hn, ht]; rfl
+    simp only [judgeObs]
+    have b1 : decide ((sortByKey sh0.series).map fun x => (x.name, x.tags)).Nodup = true := decide_eq_true c1
+    have b2 := List.all_eq_true.2 c2
+    have b3 := List.all_eq_true.2 c3
+    rw [b1, b2, b3]; rfl
+
+theorem judge_mn (st : State) (a : Abs) (h : Rel st a) :
+    judgeObs a (.mn .nil_ none) (.keys (measurementNames .nil_ st none)) = .ok := by
+  have c1 : (measurementNames .nil_ st none).Nodup := strictAsc_nodup _ (strictAsc_measurementNames _ _ _)
+  have c2 : ∀ m ∈ measurementNames .nil_ st none, (a.any fun e => decide (e.name = m ∧ (!e.pts.isEmpty) = true)) = true := by
+    intro m hm
+    obtain ⟨sh0, hsh0, s, hs, hn, _, _⟩ := (mem_measurementNames_none .nil_ st m).1 hm
+    obtain ⟨hwf, hc, _⟩ := h.shards sh0 hsh0
+    obtain ⟨hswf, hsl⟩ := hwf.wf s hs
+    have hne : s.pts ≠ [] := (listed_iff_pts_cacheOnly s hswf (hc s hs)).1 hsl
+    have hR := h.pts sh0 hsh0 (s.name, s.tags)
+    simp only at hR
+    rw [readPts_of_mem hwf hs] at hR
+    obtain ⟨p, hp⟩ := List.exists_mem_of_ne_nil _ hne
+    have hpa := (hR p).1 hp
+    unfold absPts at hpa
+    cases hfa : a.find? (fun e => decide (e.shard = sh0.id ∧ keyOf e = (s.name, s.tags))) with
+    | none => rw [hfa] at hpa; cases hpa
+    | some e =>
+      rw [hfa] at hpa
+      have hpa : p ∈ e.pts := hpa
+      have he : e ∈ a := List.mem_of_find?_eq_some hfa
+      have hk : e.shard = sh0.id ∧ keyOf e = (s.name, s.tags) := by
+        have := List.find?_some hfa; simpa using this
+      simp only [List.any_eq_true, decide_eq_true_eq]
+      refine ⟨e, he, ?_, ?_⟩
+      · have := hk.2; simp only [keyOf, Prod.mk.injEq] at this; rw [this.1, hn]
+      · cases hep : e.pts with
+        | nil => rw [hep] at hpa; cases hpa
+        | cons _ _ => simp
+  have c3 : ∀ e ∈ a.filter (fun e => !e.pts.isEmpty), (measurementNames .nil_ st none).contains e.name = true := by
+    intro e he
+    simp only [List.mem_filter, Bool.not_eq_true', List.isEmpty_eq_false_iff] at he
+    obtain ⟨hea, hne⟩ := he
+    obtain ⟨sh0, hsh0, hid⟩ := h.cover e hea
+    have hap := absPts_of_mem h.uniq hea
+    have hR := h.pts sh0 hsh0 (keyOf e)
+    rw [hid, hap] at hR
+    obtain ⟨p, hp⟩ := List.exists_mem_of_ne_nil _ hne
+    have hpm := (hR p).2 hp
+    unfold readPts at hpm
+    cases hfs : findSeries sh0 (keyOf e).1 (keyOf e).2 with
+    | none => simp [hfs] at hpm
+    | some s =>
+      obtain ⟨hs, hn, _⟩ := findSeries_mem hfs
+      simp only [List.contains_eq_mem, decide_eq_true_eq]
+      refine (mem_measurementNames_none .nil_ st e.name).2 ⟨sh0, hsh0, s, hs, ?_, rfl, trivial⟩
+      simpa [keyOf] using hn
+  simp only [judgeObs]
+  have b1 : decide (measurementNames .nil_ st none).Nodup = true := decide_eq_true c1
+  have b2 := List.all_eq_true.2 c2
+  have b3 := List.all_eq_true.2 c3
+  rw [b1, b2, b3]; rfl
+
+/-! ### the whole case -/
+
+open Influx.Spec.C16 (PredWF SeriesWF) in
+/-- the domain of the theorem: no snapshots (values stay in the cache), written series and
+    predicates inside the C16 domain, proper ranges -/
+def opOK : Op → Bool
+  | .write _ name tags pts => !pts.isEmpty && SeriesWF name tags && DelPred.KeyOK name tags
+  | .del lo hi pred _ => decide (lo ≤ hi) && (match pred with | none => true | some p => PredWF p)
+  | .snap _ => false
+  | _ => true
+
+/-- shard ids are exactly 1..n -/
+def IdsRange (st : State) (n : Nat) : Prop := ∀ i, (∃ sh ∈ st, sh.id = i) ↔ 1 ≤ i ∧ i ≤ n
+
+theorem write_ids (st : State) (sh : Nat) (name : Bytes) (tags : Tags) (pts : List (Int × Int)) (i : Nat) :
+    (∃ x ∈ write st sh name tags pts, x.id = i) ↔ ∃ x ∈ st, x.id = i := by
+  simp only [write, List.mem_map]
+  constructor
+  · rintro ⟨x, ⟨sh0, hsh0, rfl⟩, hi⟩
+    refine ⟨sh0, hsh0, ?_⟩
+    split at hi
+    · rw [shard_write_id] at hi; exact hi
+    · exact hi
+  · rintro ⟨sh0, hsh0, hi⟩
+    refine ⟨_, ⟨sh0, hsh0, rfl⟩, ?_⟩
+    split
+    · rw [shard_write_id]; exact hi
+    · exact hi
+
+theorem delete_ids (st : State) (lo hi : Int) (pred : Option Pred) (hm : Bool) (i : Nat) :
+    (∃ x ∈ delete st lo hi pred hm, x.id = i) ↔ ∃ x ∈ st, x.id = i := by
+  simp only [delete, List.mem_map]
+  constructor
+  · rintro ⟨x, ⟨sh0, hsh0, rfl⟩, hi⟩; exact ⟨sh0, hsh0, hi⟩
+  · rintro ⟨sh0, hsh0, hi⟩; exact ⟨_, ⟨sh0, hsh0, rfl⟩, hi⟩
+
+theorem readShard_none_iff (st : State) (n : Nat) (hr : IdsRange st n) (sh : Nat) :
+    readShard st sh = none ↔ (sh < 1 ∨ n < sh) := by
+  unfold readShard
+  constructor
+  · intro h
+    have hnone : st.find? (·.id = sh) = none := by
+      cases hf : st.find? (·.id = sh) with
+      | none => rfl
+      | some x => simp [hf] at h
+    have : ¬ (1 ≤ sh ∧ sh ≤ n) := by
+      intro hc
+      obtain ⟨x, hx, hid⟩ := (hr sh).2 hc
+      have := List.find?_eq_none.1 hnone x hx
+      simp [hid] at this
+    omega
+  · intro h
+    have : st.find? (·.id = sh) = none := by
+      rw [List.find?_eq_none]
+      intro x hx
+      simp only [decide_eq_true_eq]
+      intro hid
+      have := (hr sh).1 ⟨x, hx, hid⟩
+      omega
+    simp [this]
+
+/-- **The statement checker accepts the model's trace** (cases without snapshots, inside the C16
+    domain). -/
+theorem judgeCase_runT (n : Nat) (ops : List Op) (hok : ops.all opOK = true) (st : State) (a : Abs)
+    (h : Rel st a) (hr : IdsRange st n) :
+    (judgeCase n a (runT (some st) ops)).all (· = .ok) = true := by
+  induction ops generalizing st a with
+  | nil => rfl
+  | cons op ops ih =>
+    simp only [List.all_cons, Bool.and_eq_true] at hok
+    obtain ⟨hop, hrest⟩ := hok
+    cases op with
+    | open_ k =>
+      simp only [runT, ansOf, stepOp, judgeCase, judgeObs, List.all_cons, Bool.and_eq_true]
+      exact ⟨by decide, ih hrest st a h hr⟩
+    | write sh name tags pts =>
+      simp only [opOK, Bool.and_eq_true, Bool.not_eq_true', List.isEmpty_eq_false_iff] at hop
+      obtain ⟨⟨hp, hsw⟩, hk⟩ := hop
+      by_cases hex : st.any (·.id = sh) = true
+      · simp only [runT, ansOf, stepOp, hex, if_true, judgeCase]
+        exact ih hrest _ _ (rel_write st a h sh name tags pts hex hp ⟨hsw, hk⟩)
+          (fun i => (write_ids st sh name tags pts i).trans (hr i))
+      · simp only [runT, ansOf, stepOp, hex, Bool.false_eq_true, if_false, judgeCase, judgeObs, List.all_cons,
+          Bool.and_eq_true]
+        exact ⟨by decide, ih hrest st a h hr⟩
+    | snap sh => simp [opOK] at hop
+    | del lo hi pred hm =>
+      simp only [opOK, Bool.and_eq_true, decide_eq_true_eq] at hop
+      obtain ⟨hlh, hp⟩ := hop
+      simp only [runT, ansOf, stepOp, judgeCase]
+      refine ih hrest _ _ (rel_delete st a h lo hi hlh pred hm ?_) (fun i => (delete_ids st lo hi pred hm i).trans (hr i))
+      intro p hpp
+      subst hpp
+      exact hp
+    | read sh =>
+      simp only [runT, ansOf, stepOp]
+      cases hrs : readShard st sh with
+      | none =>
+        have := (readShard_none_iff st n hr sh).1 hrs
+        simp only [judgeCase, List.all_cons, Bool.and_eq_true]
+        refine ⟨?_, ih hrest st a h hr⟩
+        simp [this]
+      | some l =>
+        simp only [judgeCase, List.all_cons, Bool.and_eq_true]
+        refine ⟨?_, ih hrest st a h hr⟩
+        rw [judge_read st a h sh l hrs]; rfl
+    | ls sh =>
+      simp only [runT, ansOf, stepOp]
+      cases hrs : readShard st sh with
+      | none =>
+        have := (readShard_none_iff st n hr sh).1 hrs
+        simp only [judgeCase, List.all_cons, Bool.and_eq_true]
+        refine ⟨?_, ih hrest st a h hr⟩
+        simp [this]
+      | some l =>
+        simp only [judgeCase, List.all_cons, Bool.and_eq_true]
+        refine ⟨?_, ih hrest st a h hr⟩
+        rw [judge_ls st a h sh l hrs]; rfl
+    | mn au c =>
+      simp only [runT, ansOf, stepOp, judgeCase, List.all_cons, Bool.and_eq_true]
+      refine ⟨?_, ih hrest st a h hr⟩
+      cases au with
+      | nil_ =>
+        cases c with
+        | none => rw [judge_mn st a h]; rfl
+        | some c => rfl
+      | open_ => rfl
+      | deny ps ns => rfl
+    | tk au ids nc kc f =>
+      simp only [runT, ansOf, stepOp]
+      split <;> (simp only [judgeCase, judgeObs, List.all_cons, Bool.and_eq_true]; exact ⟨by decide, ih hrest st a h hr⟩)
+    | tv au ids nc kc f =>
+      simp only [runT, ansOf, stepOp]
+      split
+      · simp only [judgeCase, judgeObs, List.all_cons, Bool.and_eq_true]; exact ⟨by decide, ih hrest st a h hr⟩
+      · split <;> (simp only [judgeCase, judgeObs, List.all_cons, Bool.and_eq_true]; exact ⟨by decide, ih hrest st a h hr⟩)
+
+theorem rel_init (n : Nat) : Rel ((List.range n).map fun i => ⟨i + 1, [], []⟩) [] ∧
+    IdsRange ((List.range n).map fun i => ⟨i + 1, [], []⟩) n := by
+  constructor
+  · constructor
+    · rw [List.map_map]
+      have : ((fun (sh : Shard) => sh.id) ∘ fun i => (⟨i + 1, [], []⟩ : Shard)) = fun i => i + 1 := rfl
+      rw [this]
+      exact (List.nodup_range n).map (fun a b hab => by omega)
+    · intro sh hsh
+      simp only [List.mem_map] at hsh
+      obtain ⟨i, _, rfl⟩ := hsh
+      exact ⟨⟨by simp, by simp⟩, by intro s hs; cases hs, by intro s hs; cases hs⟩
+    · intro sh hsh k
+      simp only [List.mem_map] at hsh
+      obtain ⟨i, _, rfl⟩ := hsh
+      intro x
+      simp [readPts, findSeries, absPts]
+    · simp [AbsUniq]
+    · intro e he; cases he
+  · intro i
+    simp only [List.mem_map, List.mem_range]
+    constructor
+    · rintro ⟨sh, ⟨j, hj, rfl⟩, rfl⟩; simp only; omega
+    · rintro ⟨h1, h2⟩
+      exact ⟨⟨i - 1 + 1, [], []⟩, ⟨i - 1, by omega, rfl⟩, by simp only; omega⟩
 
 end Influx.Model.StoreDel
